@@ -293,7 +293,8 @@ class Adapter:
     def div(self, case, k, op, comp, exp, actual, got, feats, d=None):
         return {'kind': 'divergence', 'step': k, 'action': op, 'component': comp, 'features': sorted(set(feats)),
                 'got_outcome': got, 'expected_outcome': case['hist'][k]['act']['res'],
-                'diff': d, 'case': case_brief(case, upto=k), 'actual': actual if comp != 'outcome' else None}
+                'diff': d, 'case': case_brief(case, upto=k), 'actual': actual if comp != 'outcome' else None,
+                'expected': exp, 'adapter': 'harness.replay_model'}
 
 
 def case_brief(case, upto=None):
@@ -305,3 +306,21 @@ def case_brief(case, upto=None):
 def case_hash_acts(acts):
     import hashlib
     return hashlib.sha1(json.dumps(acts, sort_keys=True).encode()).hexdigest()[:16]
+
+
+def replay_divergence(d):
+    """Re-run the stored action sequence on the current tree; compare with the stored expected observation."""
+    from harness import common
+    langs = common.dump_langs()
+    ctx = materialise.lang_ctx(langs[d['case']['lang']], key=d['case']['lang'])
+    drv = ModelDriver(ctx)
+    outcomes = []
+    for act in d['case']['acts']:
+        outcomes.append(drv.apply(act))
+    actual = drv.project()
+    exp = d.get('expected')
+    last = d['case']['acts'][-1]
+    report = {'acts': d['case']['acts'], 'outcomes': outcomes, 'expected_last_outcome': last['res'],
+              'diff': diff_obs(exp, actual) if exp else None}
+    still = (last['res'] in ('ok', 'exc') and outcomes[-1] != last['res']) or bool(report['diff'])
+    return still, report
